@@ -47,6 +47,11 @@ func (f *AppArmorProfileFile) Resolve() error {
 		}
 	}
 
+	// A variable that refers back to itself through other variables can never be resolved
+	if name := recursiveVariable(f.Preamble.GetVariables()); name != "" {
+		return fmt.Errorf("recursive variable found in: %s", name)
+	}
+
 	// Resolve variables
 	for _, variable := range f.Preamble.GetVariables() {
 		newValues := []string{}
@@ -74,6 +79,40 @@ func (f *AppArmorProfileFile) Resolve() error {
 	}
 
 	return nil
+}
+
+// recursiveVariable returns the name of a variable whose values refer back to
+// it, directly or through other variables. Empty when there is none.
+func recursiveVariable(variables []*Variable) string {
+	refs := map[string][]string{}
+	for _, variable := range variables {
+		for _, value := range variable.Values {
+			for _, match := range regVariableReference.FindAllStringSubmatch(value, -1) {
+				refs[variable.Name] = append(refs[variable.Name], match[1])
+			}
+		}
+	}
+	var reaches func(from string, to string, seen map[string]bool) bool
+	reaches = func(from string, to string, seen map[string]bool) bool {
+		for _, next := range refs[from] {
+			if next == to {
+				return true
+			}
+			if !seen[next] {
+				seen[next] = true
+				if reaches(next, to, seen) {
+					return true
+				}
+			}
+		}
+		return false
+	}
+	for _, variable := range variables {
+		if reaches(variable.Name, variable.Name, map[string]bool{}) {
+			return variable.Name
+		}
+	}
+	return ""
 }
 
 func (f *AppArmorProfileFile) resolveValues(input string) ([]string, error) {
